@@ -270,5 +270,10 @@ func runC38(c *Ctx) []Obligation {
 		)
 	}
 	out = append(out, c.Rows(rows)...)
+	bare2lp := []Rename{{From: "BinaryBare", To: "BinaryLengthPrefixed"}}
+	out = append(out,
+		c.twins(P, "switch.twins.marshal", "(*codec.Codec).MarshalBinaryBare", "(*codec.Codec).MarshalBinaryLengthPrefixed", bare2lp, "the length-prefixed writer is the bare writer with every delegate replaced by its length-prefixed form"),
+		c.twins(P, "switch.twins.unmarshal", "(*codec.Codec).UnmarshalBinaryBare", "(*codec.Codec).UnmarshalBinaryLengthPrefixed", bare2lp, "the length-prefixed reader is the bare reader with every delegate replaced by its length-prefixed form, on every branch"),
+	)
 	return out
 }
